@@ -297,6 +297,35 @@ def sampler_objects(c, case):
             c.holds('first_sweep_starts_from_the_new_initial_values', bool(abs(S['a'].samples[0, 0]) < 10 and abs(S['b'].samples[0, 0]) < 10), note=f"{S['a'].samples[0, 0]}, {S['b'].samples[0, 0]}")
 
 
+def block_target_of_real_joint(c):
+    """the conditional handed to a gradient-driven block sampler by the REAL HybridGibbs for a block on which two other factors depend (another block and a data
+    set: the conditional is a several-likelihood posterior): it is the joint conditioned on the others - log-density differences equal those of the joint, and its
+    gradient is the derivative of that log-density (prior of the block included); bounded stand-in: native"""
+    import io, contextlib
+    from cuqi.distribution import Gaussian, JointDistribution
+    import cuqi.experimental.mcmc as EX
+    n = 2
+    B1 = np.array([[c.real(f'B1{i}{j}') for j in range(n)] for i in range(n)]); B2 = np.array([[c.real(f'B2{i}{j}') for j in range(n)] for i in range(n)])
+    s_ = Gaussian(np.array([c.real('m0'), c.real('m1')]), 0.7, name='s')
+    from cuqi.model import LinearModel
+    x1 = Gaussian(LinearModel(B1)(s_), 0.5, name='x1'); x2 = Gaussian(LinearModel(B2)(s_), 0.4, name='x2')
+    d2 = np.array([c.real('d0'), c.real('d1')])
+    J = JointDistribution(s_, x1, x2)(x2=d2)
+    with contextlib.redirect_stdout(io.StringIO()), contextlib.redirect_stderr(io.StringIO()):
+        G = EX.HybridGibbs(J, {'s': EX.ULA(scale=0.01), 'x1': EX.Direct()})
+        G._set_target('s')
+    T = G.samplers['s'].target
+    x1v = np.asarray(G.current_samples['x1'], dtype=float)
+    a = np.array([c.real('a0'), c.real('a1')]); b = np.array([c.real('b0'), c.real('b1')])
+    c.eq('block_target_log_density_differences_are_those_of_the_joint', T.logd(a) - T.logd(b), J.logd(s=a, x1=x1v) - J.logd(s=b, x1=x1v), tol=1e-9)
+    try: g = np.asarray(T.gradient(a), dtype=float).ravel()
+    except NotImplementedError:
+        c.holds('gradient_refused', True); return
+    h = 1e-6
+    fd = np.array([(J.logd(s=a + h * e, x1=x1v) - J.logd(s=a - h * e, x1=x1v)) / (2 * h) for e in np.eye(n)]).ravel()
+    c.eq('block_target_gradient_is_the_derivative_of_the_conditioned_joint', g, fd, tol=1e-5)
+
+
 def jobs(tier):
     J = []
     q = tier == 'quick'
@@ -316,6 +345,7 @@ def jobs(tier):
     for k in (2, 3):
         J.append(Job(f'legacy.Gibbs.sweep:blocks={k}', lambda c, k=k: legacy_sweep(c, k), 'Pbox', LG))
     J.append(Job('legacy.Gibbs:stored_columns_and_continuation', legacy_run, 'Pbox', LG))
+    J.append(Job('HybridGibbs:block_target_of_a_real_joint:several_dependent_factors', block_target_of_real_joint, 'B', ['cuqi.experimental.mcmc._gibbs:HybridGibbs._set_target', 'cuqi.distribution._joint_distribution:MultipleLikelihoodPosterior.gradient'], nnum=3))
     for case in ('one_object_for_two_blocks', 'objects_of_a_finished_run'):
         J.append(Job(f'HybridGibbs:sampler_objects:{case}', lambda c, case=case: sampler_objects(c, case), 'B', ['cuqi.experimental.mcmc._gibbs:HybridGibbs._initialize_samplers', 'cuqi.experimental.mcmc._sampler:Sampler.initialize'], nnum=2))
     return J
